@@ -157,6 +157,23 @@ pub fn special_items() -> Vec<Item> {
     v
 }
 
+/// Grammars with %llguidance options and nested sub-grammars: for the checks whose oracle is the engine's own
+/// consistency (C01, C10, C11, C12) — no byte-level reference knows these options
+pub fn option_items() -> Vec<Item> {
+    let mut v = vec![
+        lark("opt-no-forcing", "%llguidance { \"no_forcing\": true }\nstart: \"abc\" /[0-9]+/ \"xy\"", &["abc12xy"]),
+        lark("opt-initial-skip", "%llguidance { \"allow_initial_skip\": true }\nstart: \"ab\" NUM\nNUM: /[0-9]+/\n%ignore /[ \\n]+/", &[" ab 12", "ab1"]),
+        lark("opt-no-initial-skip", "start: \"ab\" NUM\nNUM: /[0-9]+/\n%ignore /[ \\n]+/", &["ab 12", "ab1"]),
+        lark("opt-invalid-utf8", "%llguidance { \"allow_invalid_utf8\": true }\nstart: /[a-c]+/ \"!\"", &["abc!"]),
+        lark("nested-lark", "start: \"<\" inner \">\" inner\ninner: %lark {\n  start: A B?\n  A: /a+/\n  B: \"b\"\n}", &["<aab>a", "<a>ab"]),
+        lark("nested-lark-json", "start: inner \"|\" j\ninner: %lark {\n  start: \"x\" /[0-9]{1,2}/\n}\nj: %json {\"type\":\"boolean\"}", &["x12|true", "x1|false"]),
+    ];
+    for i in v.iter_mut() {
+        i.core = false;
+    }
+    v
+}
+
 /// Grammars outside the core fragment (stop=/max_tokens=/temperature): used by C18/C20 only.
 pub fn noncore_lark_items() -> Vec<Item> {
     let mut v = vec![
